@@ -613,6 +613,8 @@
 ; big.Float.String() = Text('g', 10): ten significant digits of the value - a function of the numeric
 ; value (and the sign of a zero) only, not of the precision of the representation (assumed about math/big)
 (declare-fun num_text10 (Int Real Bool) String)
+; (&big.Float{}).String() is "0" (assumed fact about the external)
+(assert (= (num_text10 0 0.0 false) "0"))
 ; ghost: the collection an element iterator was created for (iterators are not under contract yet)
 (declare-fun it_coll (Any) cty.Value)
 ; ghost: "both callbacks of this transformer return their argument unchanged and no error" (an identity
